@@ -102,7 +102,7 @@ class G:
         r = self.r
         core = "91%05d37" % self.n
         self.roles[core] = "N"
-        k = r.below(6) if self.exotic else 0
+        k = r.below(10) if self.exotic else 0
         if k == 0:
             return Num(core)
         if k == 1:
@@ -113,6 +113,15 @@ class G:
             return Num(core + "e3")
         if k == 4:
             return Num(core + "000000000000000001")
+        # valid JSON numbers that no machine number type holds: beyond float64 (json.Number keeps their text)
+        if k == 6:
+            return Num(core + "e400")
+        if k == 7:
+            return Num("-" + core[0] + "." + core[1:] + "E+999")
+        if k == 8:
+            return Num(core * 40)
+        if k == 9:
+            return Num("0." + "0" * 330 + core + "e-400")
         return Num("0." + core)
 
     def boolean(self):
